@@ -84,6 +84,8 @@ def report(rep, case, d, driver):
 
 
 def check(rep, tier, seed, driver):
+    import kd_scan
+    kd_scan.report(rep)
     rng = random.Random(seed)
     n = 600 if tier == "quick" else 2000
     rep.rule = ("random ProximityArchive configurations (k 1..8, thresholds incl. 0, initial_capacity 1..128, float32/float64, with/without "
